@@ -86,7 +86,7 @@ def check_case(rec, case):
 
 
 def gen_cases(rec, rng, tier):
-    per = 100 if tier == 'thorough' else 25
+    per = 300 if tier == 'thorough' else 25
     for t in exercises.TEMPLATES:
         k = per
         if t == 'dfa-to-regexp':
